@@ -1,10 +1,56 @@
-"""Contracts for topsim/core/delay.py (C15)."""
+"""Contracts for topsim/core/delay.py (C15, C10)."""
 import z3
 from .base import *
+from . import deps
 
-# caller-side contract of generate_delay; the body is checked against it below where the encoding reaches it
-REG.contract('DelayModel.generate_delay',
-    params={'task_runtime': 'num', 'n': 'num'},
-    requires=lambda c: [('runtime-nonneg', c.o.task_runtime.t >= 0)],
-    ensures=lambda c: [('C15-only-lengthens', c.result.t >= c.o.task_runtime.t)],
-    result='num', props=['C15'])
+DD = lambda m: enum_code('DelayDegree', m)
+
+
+def degree_value(t):
+    """DelayDegree.value as a number"""
+    v = z3.RealVal(0)
+    for m, val in ENUMS.enums['DelayDegree'].items():
+        v = z3.If(t == ENUMS.code('DelayDegree', m), z3.RealVal(repr(val)), v)
+    return v
+
+
+def no_nondeterminism(c):
+    """C10/C15 'identical for identical seed and arguments': the result term is built from the seed and the arguments only -
+    no value that is not a function of program state (unseeded generator, wall clock) was drawn on this path"""
+    nd = c.eng.st.ghost.get('_nondet', [])
+    return z3.BoolVal(len(nd) == 0)
+
+
+def _gd_req(c):
+    return [('runtime-nonnegative', c.o.task_runtime.t >= 0),
+            ('assume:runtime-is-a-whole-number-of-timesteps', z3.IsInt(c.o.task_runtime.t)),
+            ('sample-size-positive', c.o.n.t >= 1),
+            ('assume:probability-in-range', z3.And(c.o.self.prob.t >= 0, c.o.self.prob.t <= 1))]
+
+
+def _gd_ens(c):
+    s, rt_ = c.o.self, c.o.task_runtime.t
+    res = c.result.t
+    return [('C15-never-shortens', res >= rt_),
+            ('C15-no-delay-when-degree-is-none', z3.Implies(s.degree.t == DD('NONE'), res == rt_)),
+            ('C15-no-delay-when-probability-is-zero', z3.Implies(s.prob.t == 0, res == rt_)),
+            ('C15-no-delay-when-runtime-is-zero', z3.Implies(rt_ == 0, res == 0)),
+            ('C15-C10-deterministic-in-seed-and-arguments', no_nondeterminism(c))]
+
+
+REG.contract('DelayModel.generate_delay', params={'task_runtime': 'int', 'n': 'int'},
+             requires=_gd_req, ensures=_gd_ens, result='num', props=['C15', 'C10'])
+
+
+def _crv_ens(c):
+    rt_ = c.o.runtime.t
+    return [('C15-sample-not-below-the-runtime', c.result.t >= rt_),
+            ('C15-zero-runtime-gives-zero', z3.Implies(rt_ == 0, c.result.t == 0)),
+            ('C15-C10-deterministic-in-seed-and-arguments', no_nondeterminism(c))]
+
+
+REG.contract('DelayModel._create_random_value_from_runtime', params={'runtime': 'int', 'n': 'int'},
+             requires=lambda c: [('runtime-is-a-nonnegative-whole-number', z3.And(c.o.runtime.t >= 0, z3.IsInt(c.o.runtime.t))),
+                                 ('sample-size-positive', c.o.n.t >= 1),
+                                 ('degree-is-not-none', c.o.self.degree.t != DD('NONE'))],
+             ensures=_crv_ens, result='num', props=['C15', 'C10'])
